@@ -157,6 +157,10 @@ var seedExpectations = []seedExpect{
 	{"C02-g", "C02", "phi.predecessor", "emitImageLoadRZSW:branch-to-mergeBlockID#2"},
 	{"C14-g", "C14", "error.breakloop", "evaluateGlobalInitializers:if-err"},
 	{"C17-g", "C17", "index.mixedbasis", "writeEPInputStruct:fakeMembers.index"},
+	// eighth batch (-h), caught on arrival
+	{"C02-h", "C02", "layout.seethrough", "emitStructMemberDecorations"},
+	{"C17-h", "C17", "epselect.agree", "scanTextureSamplerPairs:filter"},
+	{"C18-h", "C18", "maporder", "emitHelperFunctions:range(calledFunctions)"},
 	// hand-made positive controls (controls/)
 	{"globals-write", "C12", "globals.nowrite", "typeNameCache"},
 	{"rzsw-nomerge", "C02", "spirv.mergefirst", "emitImageLoadRZSW"},
